@@ -22,6 +22,7 @@ pub struct Graph;
 
 fn mk_func(name: String, args: Vec<Arg>, ret: Option<Ty>, addr: u64) -> Func {
     Func {
+        more: vec![],
         sty: 0,
         vis: true,
         name,
@@ -86,6 +87,7 @@ pub fn gen_graph(t: &mut Tape) -> Prog {
             td.vft = Some(Vft {
                 size: None,
                 funcs: vec![Func {
+                    more: vec![],
                     sty: 0,
                     vis: true,
                     name: format!("v{i}"),
